@@ -358,7 +358,7 @@ Definition benign (f : fault) : bool :=
 Definition dfa_next (inside : bool) (c : call) : option bool :=
   match c, inside with
   | Begin, false => Some true
-  | Send _, true | SendOffsets, true => Some true
+  | Send _, true | SendOffsets, true | SendNW _, true => Some true
   | Commit, true | Abort, true | CtxOk, true | CtxExc, true => Some false
   | _, _ => None
   end.
@@ -368,12 +368,16 @@ Definition inside_of (s : tstate) : option bool :=
   if gap0 s || gap1 s then None
   else match st s with READY => Some false | IN_TXN => Some true | _ => None end.
 
+(* no awaited nowait future failed *)
+Definition fut_ok (o : option result) : bool := match o with Some r => negb (is_error r) | None => true end.
+Definition futs_ok (fu : futs) : bool := fut_ok (fst fu) && fut_ok (snd fu).
+
 Definition lang_step_b (s : tstate) (c : call) (f : fault) : bool :=
   match inside_of s with
   | Some i =>
       benign f ==>
         (match dfa_next i c with
-         | Some i' => result_eqb (api_res s c f) ROk
+         | Some i' => result_eqb (api_res s c f) ROk && futs_ok (api_fut s c f)
                       && eqb_of (fun a b : option bool => ltac:(decide equality; apply bool_dec) : {a = b} + {a <> b})
                            (inside_of (api_st s c f)) (Some i')
          | None => is_error (api_res s c f)
@@ -389,7 +393,7 @@ Definition all_accepted (o : list (result * list req)) : bool :=
 Lemma in_protocol_order_step i c rest :
   in_protocol_order i (c :: rest) =
   match dfa_next i c with Some i' => in_protocol_order i' rest | None => false end.
-Proof. destruct c, i; reflexivity. Qed.
+Proof. destruct c as [ | ? | | | | | | ? ], i; reflexivity. Qed.
 
 Lemma accepts_protocol_order_gen : forall cs s i,
   wfb s = true -> inside_of s = Some i ->
@@ -404,7 +408,7 @@ Proof.
     pose proof (wsweep_sound _ lang_step_sweep s c f W) as P. unfold lang_step_b in P.
     rewrite I, Bf in P.
     destruct (dfa_next i c) as [i'|].
-    + apply andb_prop in P. destruct P as [P1 P2].
+    + apply andb_prop in P. destruct P as [P1 P2]. apply andb_prop in P1. destruct P1 as [P1 _].
       apply eqb_of_true in P1. apply eqb_of_true in P2. rewrite P1. simpl.
       apply IH; auto. apply wf_preserved; assumption.
     + unfold accepted. rewrite P. reflexivity.
@@ -461,10 +465,10 @@ Proof. vm_compute. reflexivity. Qed.
    register a partition / a group / commit offsets *)
 Definition abortable_cause_b (s : tstate) (c : call) (f : fault) : bool :=
   (negb (tst_eqb (st s) ABORTABLE) && tst_eqb (st (api_st s c f)) ABORTABLE) ==>
-    (match c, f with
-     | Send _, Some (I0, FErr E29) => true
-     | SendOffsets, Some (_, FErr E30) => true
-     | _, _ => false
+    (match f with
+     | Some (_, FErr E29) => pending s || match c with Send _ => true | _ => false end
+     | Some (_, FErr E30) => match c with SendOffsets => true | _ => false end
+     | _ => false
      end).
 Lemma abortable_cause_sweep : wsweep abortable_cause_b = true.
 Proof. vm_compute. reflexivity. Qed.
@@ -509,9 +513,18 @@ Qed.
    the pending send (the one being awaited) fails *)
 Definition exn_of (r : result) : option exn :=
   match r with ROk => None | RRaise e | RFutFail e => Some e end.
+(* one of the awaited nowait futures failed with this error *)
+Definition ofut_exn (o : option result) : option exn := match o with Some r => exn_of r | None => None end.
+Definition fut_is (w : option exn) (fu : futs) : bool :=
+  match w with
+  | Some _ => werr_eqb w (ofut_exn (fst fu)) || werr_eqb w (ofut_exn (snd fu))
+  | None => false
+  end.
 Definition fatal_entry_b (s : tstate) (c : call) (f : fault) : bool :=
   (negb (tst_eqb (st s) FATAL) && tst_eqb (st (api_st s c f)) FATAL) ==>
-    (is_error (api_res s c f) && werr_eqb (werr (api_st s c f)) (exn_of (api_res s c f))
+    (is_error (api_res s c f)
+     && (werr_eqb (werr (api_st s c f)) (exn_of (api_res s c f))
+         || (awaits_first s c && fut_is (werr (api_st s c f)) (api_fut s c f)))
      && is_empty_txn (api_st s c f)).
 Lemma fatal_entry_sweep : wsweep fatal_entry_b = true.
 Proof. vm_compute. reflexivity. Qed.
@@ -548,14 +561,14 @@ Definition fatal_full_prop : Prop :=
   forall s c f, wfb s = true -> fatal_class_result (api_res s c f) = true ->
                 st (api_st s c f) = FATAL.
 
-Definition in_txn_p0 : tstate := mkT IN_TXN false false false false None false false.
+Definition in_txn_p0 : tstate := mkT IN_TXN false false false false None false false false false.
 Lemma fatal_full_witness :
   wfb in_txn_p0 = true /\
   api in_txn_p0 (Send P0) (Some (I1, FErr E45)) =
-    (mkT IN_TXN true false false false None true false, RFutFail (XCode E45),
-     [RAddPartitions P0; RProduce P0]) /\
-  api (mkT IN_TXN true false false false None true false) Commit None =
-    (mkT READY false false false false None true false, ROk, [REndTxn true]).
+    (mkT IN_TXN true false false false None true false false false, RFutFail (XCode E45),
+     [RAddPartitions (one P0); RProduce (one P0)]) /\
+  api (mkT IN_TXN true false false false None true false false false) Commit None =
+    (mkT READY false false false false None true false false false, ROk, [REndTxn true]).
 Proof. repeat split. Qed.
 
 Lemma fatal_full_refuted : ~ fatal_full_prop.
@@ -622,29 +635,35 @@ Qed.
 
 Lemma abortable_cause s c f :
   wfb s = true -> st s <> ABORTABLE -> st (api_st s c f) = ABORTABLE ->
-  (exists p, c = Send p /\ f = Some (I0, FErr E29)) \/
-  (c = SendOffsets /\ exists i, f = Some (i, FErr E30)).
+  (exists i, f = Some (i, FErr E29) /\ (pending s = true \/ exists p, c = Send p)) \/
+  (exists i, f = Some (i, FErr E30) /\ c = SendOffsets).
 Proof.
   intros W N A. pose proof (wsweep_sound _ abortable_cause_sweep s c f W) as P.
   unfold abortable_cause_b in P. rewrite A, tst_eqb_eq, (tst_eqb_neq _ _ N) in P.
   change (negb false && true) with true in P. cbv iota in P.
-  destruct c; try discriminate.
-  - left. exists p. split; [reflexivity|].
-    destruct f as [[[|] [[]| |]]|]; try discriminate; reflexivity.
-  - right. split; [reflexivity|].
-    destruct f as [[i [[]| |]]|]; try discriminate. exists i; reflexivity.
+  destruct f as [[i [k| |]]|]; try discriminate.
+  destruct k; try discriminate.
+  - left. exists i. split; [reflexivity|].
+    destruct (pending s); [left; reflexivity|]. right.
+    destruct c; try discriminate. eexists; reflexivity.
+  - right. exists i. split; [reflexivity|]. destruct c; try discriminate; reflexivity.
 Qed.
 
 Lemma fatal_entry s c f :
   wfb s = true -> st s <> FATAL -> st (api_st s c f) = FATAL ->
-  is_error (api_res s c f) = true /\ werr (api_st s c f) = exn_of (api_res s c f) /\
+  is_error (api_res s c f) = true /\
+  (werr (api_st s c f) = exn_of (api_res s c f) \/
+   (awaits_first s c = true /\ fut_is (werr (api_st s c f)) (api_fut s c f) = true)) /\
   is_empty_txn (api_st s c f) = true.
 Proof.
   intros W N A. pose proof (wsweep_sound _ fatal_entry_sweep s c f W) as P.
   unfold fatal_entry_b in P. rewrite A, tst_eqb_eq, (tst_eqb_neq _ _ N) in P.
   change (negb false && true) with true in P. cbv iota in P.
   apply andb_prop in P. destruct P as [P R]. apply andb_prop in P. destruct P as [P Q].
-  apply eqb_of_true in Q. auto.
+  split; [exact P|]. split; [|exact R].
+  apply orb_prop in Q. destruct Q as [Q|Q].
+  - left. apply eqb_of_true in Q. exact Q.
+  - right. apply andb_prop in Q. exact Q.
 Qed.
 
 Lemma fatal_raise s c f e :
@@ -675,20 +694,87 @@ Qed.
 (* entering ABORTABLE_ERROR keeps the registered partitions and group *)
 Definition abortable_keeps_b (s : tstate) (c : call) (f : fault) : bool :=
   (tst_eqb (st (api_st s c f)) ABORTABLE && negb (tst_eqb (st s) ABORTABLE)) ==>
-  (Bool.eqb (p0 (api_st s c f)) (p0 s) && Bool.eqb (p1 (api_st s c f)) (p1 s)
-   && implb (grp s) (grp (api_st s c f)) && is_error (api_res s c f)).
+  (implb (p0 s) (p0 (api_st s c f)) && implb (p1 s) (p1 (api_st s c f))
+   && implb (grp s) (grp (api_st s c f)) && is_error (api_res s c f)
+   && (negb (pending s) ==> (Bool.eqb (p0 (api_st s c f)) (p0 s) && Bool.eqb (p1 (api_st s c f)) (p1 s)))).
 Lemma abortable_keeps_sweep : wsweep abortable_keeps_b = true.
 Proof. vm_compute. reflexivity. Qed.
 Lemma abortable_keeps s c f :
   wfb s = true -> st s <> ABORTABLE -> st (api_st s c f) = ABORTABLE ->
-  p0 (api_st s c f) = p0 s /\ p1 (api_st s c f) = p1 s /\ (grp s = true -> grp (api_st s c f) = true) /\
-  is_error (api_res s c f) = true.
+  (p0 s = true -> p0 (api_st s c f) = true) /\ (p1 s = true -> p1 (api_st s c f) = true) /\
+  (grp s = true -> grp (api_st s c f) = true) /\
+  is_error (api_res s c f) = true /\
+  (pending s = false -> p0 (api_st s c f) = p0 s /\ p1 (api_st s c f) = p1 s).
 Proof.
   intros W N A. pose proof (wsweep_sound _ abortable_keeps_sweep s c f W) as P.
   unfold abortable_keeps_b in P. rewrite A, tst_eqb_eq, (tst_eqb_neq _ _ N) in P.
   change (true && negb false) with true in P. cbv iota in P.
-  apply andb_prop in P. destruct P as [P R]. apply andb_prop in P. destruct P as [P G].
-  apply andb_prop in P. destruct P as [P0 P1].
-  split; [apply eqb_prop; exact P0|]. split; [apply eqb_prop; exact P1|]. split; [|exact R].
-  intros K. rewrite K in G. exact G.
+  apply andb_prop in P. destruct P as [P E]. apply andb_prop in P. destruct P as [P R].
+  apply andb_prop in P. destruct P as [P G]. apply andb_prop in P. destruct P as [P0 P1].
+  split; [intros K; rewrite K in P0; exact P0|]. split; [intros K; rewrite K in P1; exact P1|].
+  split; [intros K; rewrite K in G; exact G|]. split; [exact R|].
+  intros K. rewrite K in E. simpl in E. apply andb_prop in E. destruct E as [E0 E1].
+  split; apply eqb_prop; assumption.
+Qed.
+
+(* ---------- the transition table against the hand-written specification ----------------------- *)
+Lemma table_meets_spec : forall s t,
+  (spec_must s t = true -> table s t = true) /\ (table s t = true -> spec_may s t = true).
+Proof. intros s t. destruct s, t; vm_compute; split; intros H; try reflexivity; try discriminate H. Qed.
+
+(* ---------- an abortable error that arrives while the transaction is being ended --------------- *)
+(* nowait sends to a partition the transaction does not have yet, then commit / abort / context exit
+   at once: the AddPartitionsToTxn is sent while the manager is COMMITTING / ABORTING.  If it is
+   refused with TOPIC_AUTHORIZATION_FAILED the call raises that error, the producer is in
+   ABORTABLE_ERROR with what was registered before, the waiting batches are failed with the error and
+   never produced, no EndTxn is sent. *)
+Definition unregistered (s : tstate) : pset := (nw0 s && negb (p0 s), nw1 s && negb (p1 s)).
+Definition registered_nw (s : tstate) : pset := (nw0 s && p0 s, nw1 s && p1 s).
+Definition fut_failed_for (B : pset) (e : exn) (fu : futs) : bool :=
+  (fst B ==> eqb_of ores_eq_dec (fst fu) (Some (RFutFail e)))
+  && (snd B ==> eqb_of ores_eq_dec (snd fu) (Some (RFutFail e))).
+Definition ending_error_b (s : tstate) (c : call) (f : fault) : bool :=
+  (tst_eqb (st s) IN_TXN && is_end c && negb (is_none (unregistered s))) ==>
+    (let f29 := Some (I0, FErr E29) in
+     tst_eqb (st (api_st s c f29)) ABORTABLE
+     && result_eqb (api_res s c f29) (RRaise (XCode E29))
+     && werr_eqb (werr (api_st s c f29)) (Some (XCode E29))
+     && reqs_eqb (api_req s c f29)
+          (RAddPartitions (unregistered s)
+           :: (if is_none (registered_nw s) then [] else [RProduce (registered_nw s)]))
+     && fut_failed_for (unregistered s) (XCode E29) (api_fut s c f29)
+     && Bool.eqb (p0 (api_st s c f29)) (p0 s) && Bool.eqb (p1 (api_st s c f29)) (p1 s)
+     && Bool.eqb (grp (api_st s c f29)) (grp s)).
+Lemma ending_error_sweep : wsweep ending_error_b = true.
+Proof. vm_compute. reflexivity. Qed.
+
+Lemma ending_error s c :
+  wfb s = true -> st s = IN_TXN -> is_end c = true -> is_none (unregistered s) = false ->
+  let f29 := Some (I0, FErr E29) in
+  st (api_st s c f29) = ABORTABLE /\ api_res s c f29 = RRaise (XCode E29) /\
+  werr (api_st s c f29) = Some (XCode E29) /\
+  api_req s c f29 = RAddPartitions (unregistered s)
+                    :: (if is_none (registered_nw s) then [] else [RProduce (registered_nw s)]) /\
+  fut_failed_for (unregistered s) (XCode E29) (api_fut s c f29) = true /\
+  p0 (api_st s c f29) = p0 s /\ p1 (api_st s c f29) = p1 s /\ grp (api_st s c f29) = grp s.
+Proof.
+  intros W I E U f29. pose proof (wsweep_sound _ ending_error_sweep s c None W) as P.
+  unfold ending_error_b in P. rewrite I, tst_eqb_eq, E, U in P.
+  change (true && true && negb false) with true in P. cbv iota zeta in P. fold f29 in P.
+  repeat (apply andb_prop in P; let Q := fresh "Q" in destruct P as [P Q]).
+  split; [exact (eqb_of_true _ _ _ P)|]. split; [exact (eqb_of_true _ _ _ Q5)|].
+  split; [exact (eqb_of_true _ _ _ Q4)|]. split; [exact (eqb_of_true _ _ _ Q3)|].
+  split; [exact Q2|]. split; [apply eqb_prop; exact Q1|]. split; apply eqb_prop; assumption.
+Qed.
+
+(* with no fault, or faults every handler retries, and no sequence gap, the awaited futures of the
+   nowait sends succeed *)
+Lemma nowait_futures_ok s c f i :
+  wfb s = true -> inside_of s = Some i -> benign f = true -> dfa_next i c <> None ->
+  futs_ok (api_fut s c f) = true.
+Proof.
+  intros W I B D. pose proof (wsweep_sound _ lang_step_sweep s c f W) as P.
+  unfold lang_step_b in P. rewrite I, B in P.
+  destruct (dfa_next i c); [|congruence].
+  apply andb_prop in P. destruct P as [P _]. apply andb_prop in P. destruct P as [_ P]. exact P.
 Qed.
